@@ -10,6 +10,16 @@ pub struct VString { s: String }
 pub uninterp spec fn num_of(s: &VString) -> int;          // the integer the decimal text denotes
 pub uninterp spec fn text_of(s: &VString) -> Seq<char>;    // the text itself
 
+// String methods a change may route a text through: results are uninterpreted (NOT known to be the identity)
+pub uninterp spec fn verif_replaced(t: Seq<char>, from: char, to: Seq<char>) -> Seq<char>;
+pub uninterp spec fn verif_lowered(t: Seq<char>) -> Seq<char>;
+pub uninterp spec fn verif_trimmed(t: Seq<char>) -> Seq<char>;
+impl VString {
+    #[verifier::external_body] pub fn replace(&self, from: char, to: &str) -> (r: VString) ensures text_of(&r) == verif_replaced(text_of(self), from, to@) { unimplemented!() }
+    #[verifier::external_body] pub fn to_lowercase(&self) -> (r: VString) ensures text_of(&r) == verif_lowered(text_of(self)) { unimplemented!() }
+    #[verifier::external_body] pub fn trim(&self) -> (r: VString) ensures text_of(&r) == verif_trimmed(text_of(self)) { unimplemented!() }
+}
+
 // R4/R5: `$arg.to_string()` inside `instruction!`
 pub trait ToVs {
     spec fn as_num(&self) -> int;
